@@ -529,10 +529,19 @@ def gen_session(seed, idx, extended=False):
             op['profile'] = len(texts) - 1
             op['share'] = False
             op['call'] = rnd.choice(('none', 'empty'))
+            tags.add('target_options_embedded_in_file' if op is target else 'predecessor_options_embedded_in_file')
         elif op.get('op') in ('count', 'interrupted') and op.get('via') != 'main' and rnd.random() < 0.08:
             op['call'] = 'object'
             tags.add('options_object_call')
-            tags.add('target_options_embedded_in_file' if op is target else 'predecessor_options_embedded_in_file')
+    # the same profile OBJECT, carrying its options in the file, counted again: whatever the first Election did to
+    # the profile's own option list (or anything else it owns) shows in the recount
+    if target.get('call') in ('none', 'empty') and target.get('via') != 'main' and rnd.random() < 0.5:
+        preds = [op for op in ops if op.get('op') == 'count' and op.get('via') != 'main']
+        if preds:
+            op = rnd.choice(preds)
+            op.update(profile=target['profile'], share=True, call=target['call'], options=dict(target['options']))
+            target['share'] = True
+            tags.add('embedded_options_profile_object_recounted')
     return dict(texts=texts, ops=ops, target=target, tags=sorted(tags))
 
 
